@@ -54,8 +54,10 @@ def gen_items(rng, ids, threshold, n_items, big):
             text = '{"text":"%s"}' % ('x' * n)
             items.append(['chat', text, rng.choice([0, 1, 2]), UUID0])
         elif k < 0.7:
+            # unknown ids, also ones whose VarInt takes two or three bytes
             uid = rng.choice([i for i in range(0x00, 0x7F)
-                              if i not in known])
+                              if i not in known]) if rng.random() < 0.7 \
+                else rng.choice([0x7F, 0x80, 0xC8, 0x3FFF, 0x4000, 0x1FFFFF])
             n = rng.choice([0, 1, 2, T - 1 if T > 0 else 0, T, T + 1, 77] +
                            ([2500] if big else []))
             items.append(['unknown', uid,
